@@ -27,7 +27,7 @@ IDENTITY_METHODS = {
     "transpose", "to_numpy", "item", "tolist", "reindex_like", "assign_coords", "expand_dims",
     "astype", "flatten", "ravel", "to_dataset",
 }
-IDENTITY_ATTRS = {"values", "data", "T", "real_if_close"}
+IDENTITY_ATTRS = {"values", "data", "T", "real_if_close", "data_vars"}
 
 UNARY = {
     "sqrt": sp.sqrt, "cos": sp.cos, "sin": sp.sin, "tan": sp.tan, "exp": sp.exp, "log": sp.log,
